@@ -71,11 +71,11 @@ type nativeFn struct {
 
 func needsSymBinop(x, y value) bool {
 	switch x.(type) {
-	case sym, uptr:
+	case sym, uptr, symstr:
 		return true
 	}
 	switch y.(type) {
-	case sym, uptr:
+	case sym, uptr, symstr:
 		return true
 	}
 	return false
